@@ -11,7 +11,12 @@ static thread_local int g_abort_flag = 0;
 #include "vcommon.hpp"
 
 using namespace vc;
+#ifdef C17_PTR
+// pointer-wide guest pointers over a 64 KiB region with lp32 integers: guest pointer and guest long differ in width
+using Cfg = mb::cfg<C17_PTR, mb::abi_lp32, mb::MASK, 2, false, 16>;
+#else
 using Cfg = mb::cfg<uint16_t, mb::abi_lp32, mb::MASK, 2>;
+#endif
 using SB = mb::mbox<Cfg>;
 using sbx_t = rlbox::rlbox_sandbox<SB>;
 template<class T>
@@ -34,7 +39,11 @@ GS(int, 4)
 GS(long, 4)
 GS(long long, 8)
 GS(double, 8)
-GS(int*, 2)
+GS(int*, sizeof(Cfg::PtrT))
+GS(unsigned long, 4)
+GS(unsigned long long, 8)
+GS(unsigned, 4)
+GS(unsigned short, 2)
 #undef GS
 
 static bool g_thorough = false;
@@ -384,6 +393,15 @@ int main(int argc, char** argv)
   arr1d<char, 32769, false>();
   arr1d<char, 40000, false>();
   arr1d<long, 200, false>();
+#endif
+#ifdef C17_F
+  // unsigned element types and pointers under the pointer-wide build (C17_PTR): element stride = the guest's width of the type
+  lens_some<unsigned long>();
+  lens_some<unsigned long long>();
+  lens_some<unsigned>();
+  lens_some<unsigned short>();
+  lens_some<int*>();
+  lens_some<long>();
 #endif
 #ifdef C17_D
   arr2d<int, 2, 3>();
